@@ -28,6 +28,8 @@ inductive CErr where
   | newlineInUnquoted               -- `_csv.Error: new-line character seen in unquoted field`
   | notAFloat                       -- `ValueError: could not convert string to float`
   | noHeader                        -- `StopIteration` from `next(reader)` on an empty file
+  | numericTitle                    -- a header cell that is an unquoted number (read as a float): refused (repaired)
+  | duplicateTitle                  -- two header cells with one (quoted) name: refused (repaired)
 deriving DecidableEq, Repr
 
 structure PS where
@@ -168,6 +170,42 @@ def csvFile (float : List Char → Option Nat) (text : List Char) : Except CErr 
     | .error e => .error e
     | .ok [] => .error .noHeader
     | .ok (h :: rows) => .ok (h, rows)
+
+/-! ### the header: one column per title
+
+  `for var in vars: …; seq[var] = BaseType(var)` of the repaired `CSVHandler.__init__`.  `q` is `pydap.lib._quote`
+  (C12's; a parameter here): the column is *named* `q title` — an empty title is a column named `""`, a title with a
+  blank, comma, period, bracket … is a column under its percent-quoted name.  A sequence holds one member per name
+  (`StructureType.__setitem__` deletes an existing key and appends the new one: the pinned handler served
+  `"a","b","a"` as columns `b, a` over records still laid out `a, b, a`); the repaired loop refuses a title whose
+  name is already a column, and a title that is not a string. -/
+
+/-- the loop over the header cells; `acc` = the columns created so far, in order -/
+def csvColumnsFrom (q : List Char → List Char) : List (List Char) → List Cell → Except CErr (List (List Char))
+  | acc, [] => .ok acc
+  | _, .num _ :: _ => .error .numericTitle
+  | acc, .str t :: r => if q t ∈ acc then .error .duplicateTitle else csvColumnsFrom q (acc ++ [q t]) r
+
+def csvColumns (q : List Char → List Char) (header : List Cell) : Except CErr (List (List Char)) :=
+  csvColumnsFrom q [] header
+
+/-- the sequence the handler serves: its columns (names, in order) and its records (`CSVData.stream`) -/
+structure CsvSeq where
+  columns : List (List Char)
+  records : List (List Cell)
+deriving DecidableEq, Repr
+
+/-- `CSVHandler(filepath)` + `CSVData.stream` on the text of the file -/
+def csvHandler (q : List Char → List Char) (float : List Char → Option Nat) (text : List Char) : Except CErr CsvSeq :=
+  match csvFile float text with
+  | .error e => .error e
+  | .ok (h, rows) =>
+    match csvColumns q h with
+    | .error e => .error e
+    | .ok cols => .ok ⟨cols, rows⟩
+
+/-- column `j` read on its own (`seq[name].iterdata()`): the j-th cell of every record (`none`: the record is short) -/
+def CsvSeq.column (s : CsvSeq) (j : Nat) : List (Option Cell) := s.records.map (·[j]?)
 
 /-! ### the writer side (`csv.writer(quoting=QUOTE_NONNUMERIC)`), for the round-trip theorem -/
 
